@@ -7,6 +7,7 @@ mod gen;
 mod oracle_mcf;
 mod oracle_net;
 mod oracle_out;
+mod prelude;
 mod refmodel;
 mod refstate;
 mod rng;
